@@ -71,6 +71,9 @@ pub struct OutCfg {
     /// what the application answers to a restart request: 0 = one second, 1 = 500 milliseconds, 2 = not supported
     #[serde(default)]
     pub restart_answer: u8,
+    /// define a handful of device attributes (default set and a private set, readable and writable, every data type)
+    #[serde(default)]
+    pub attrs: bool,
 }
 
 impl OutCfg {
@@ -98,6 +101,7 @@ impl OutCfg {
             decode_all: false,
             class_zero_octet_strings: true,
             restart_answer: 0,
+            attrs: false,
         }
     }
 
@@ -943,9 +947,29 @@ impl OutNode {
             Box::new(Info(rec.clone())),
             Box::new(Ctrl(rec.clone())),
         );
+        let with_attrs = cfg.attrs;
         handle.transaction(|db| {
             for p in &cfg.points {
                 add_point(db, p);
+            }
+            if with_attrs {
+                use crate::app::attr::{AttrProp, AttrSet, FloatType, OwnedAttrValue, OwnedAttribute};
+                let ro = AttrProp::default();
+                let rw = AttrProp::writable();
+                let defs: Vec<(AttrProp, u8, u8, OwnedAttrValue)> = vec![
+                    (ro, 0, 250, OwnedAttrValue::VisibleString("model".to_string())),
+                    (rw, 0, 245, OwnedAttrValue::VisibleString("somewhere".to_string())),
+                    (ro, 0, 252, OwnedAttrValue::VisibleString("maker".to_string())),
+                    (rw, 1, 1, OwnedAttrValue::UnsignedInt(7)),
+                    (rw, 1, 2, OwnedAttrValue::SignedInt(-7)),
+                    (rw, 1, 3, OwnedAttrValue::FloatingPoint(FloatType::F32(1.5))),
+                    (ro, 1, 4, OwnedAttrValue::OctetString(vec![1, 2, 3])),
+                    (rw, 1, 5, OwnedAttrValue::BitString(vec![0xA5])),
+                    (rw, 1, 6, OwnedAttrValue::Dnp3Time(crate::app::Timestamp::new(1_700_000_000_000))),
+                ];
+                for (prop, set, var, value) in defs {
+                    let _ = db.define_attr(prop, OwnedAttribute::new(AttrSet::new(set), var, value));
+                }
             }
         });
         let (mut server, tx) = ServerTask::create(
